@@ -59,6 +59,28 @@ class Joined(Opaque):
         self.parts = parts
 
 
+class SignedDigits:
+    """an optional sign character followed by decimal digits whose value is `num` (python: int(text, 10) == sign * num)"""
+    py_types = ('str',)
+
+    def __init__(self, sign, num):
+        self.sign, self.num = sign, num          # sign: '' | '+' | '-'
+
+    def clone_model(self):
+        return SignedDigits(self.sign, self.num)
+
+    def to_int(self, eng, base):
+        if base != 10:
+            raise Unsupported('int(digits, base) for a base other than 10')
+        return -zint(self.num) if self.sign == '-' else zint(self.num)
+
+    def binop(self, eng, op, other, swapped):
+        # '<sign>' + digits
+        if isinstance(op, ast.Add) and swapped and other in ('+', '-', '') and self.sign == '':
+            return SignedDigits(other, self.num)
+        raise Unsupported('operation on a digit string')
+
+
 class HexText:
     """'0x%x' % v for a non-negative integer v: the text Python's int(text, 16) reads back as v"""
     py_types = ('str',)
